@@ -1,0 +1,30 @@
+// Copyright (C) 2026 Storj Labs, Inc.
+// See LICENSE for copying information.
+
+//go:build verif
+// +build verif
+
+package drpcdebug
+
+import "sync/atomic"
+
+type pointHook struct {
+	f func(name string, who interface{})
+}
+
+var pointHookPtr atomic.Value // *pointHook
+
+// SetPointHook installs a function that is called at every Point. It is only
+// available with the verif build tag and is used by external verification
+// harnesses to observe and perturb scheduling at named program points.
+func SetPointHook(f func(name string, who interface{})) {
+	pointHookPtr.Store(&pointHook{f: f})
+}
+
+// Point is a named scheduling point. who identifies the object (transport,
+// signal, pool) the point belongs to.
+func Point(name string, who interface{}) {
+	if h, _ := pointHookPtr.Load().(*pointHook); h != nil && h.f != nil {
+		h.f(name, who)
+	}
+}
